@@ -133,6 +133,9 @@ def check_c13(pid, tier, seed, replay=None):
             extra_viol.append(dict(replay=p, what='design-level invariant violated in Own_MC'))
     enc = [enc_from_order(rng, i, h) for i, h in enumerate(orders)] + fam_templates(rng, not q)
     dec = fam_pdh(rng, 150 if q else 5000, orders)
+    import checks.syn as SY
+    syn_cases, _, _ = SY.gen_cases(('mutations', 'shapes'))       # set-up headers refused (or accepted) at every part of the syntax, written by TLC from Setup.tla
+    dec += SY.build_scenarios(rng, syn_cases, 1)
     vfs = fam_vf(rng, seed, q)
     cms = CM.fam_random(rng, 30 if q else 600) + CM.fam_random(rng, 1 if q else 10, big=True)
     with ThreadPoolExecutor(max_workers=4) as ex:
@@ -154,7 +157,7 @@ def check_c13(pid, tier, seed, replay=None):
         return bool(end) and (end[-1].get('objleft', end[-1].get('openleft', 1)) == 0) and len(evs) >= 4
     nfail = sum(1 for s in scns for e in res['scn_events'].get(s.name, []) if (e.get('e') in ('Open', 'InitVbr', 'InitManaged', 'SetupInit', 'HeaderIn', 'SynthInit') and e.get('ret', 0) != 0))
     return P.finish(pid, tier, seed, 'exploration', scns, res, RULES, t0,
-                    'scenarios = (a) encoder: every template family (mono, stereo, 5.1, uncoupled, every rate band, VBR and managed, 255 channels) torn down after set-up / analysis_init / headerout / some audio, rejected set-ups, and clear orders generated by TLC from Own_MC; (b) packet decoder: header prefixes of length 0..3 with a corruption in one header, optional init and decode, TLC-generated clear orders, repeated clears; (c) comment sets of up to 3000 entries built, written, read back and cleared; (d) vorbisfile: damaged streams opened seekable / streaming / via ov_test, I/O faults at successive callback positions of an open, failed seeks, double clear; the ASan allocator reports the bytes still live after the last clear, the close callback is counted; non-trivial = the scenario ended with every object cleared; distinct by script hash',
+                    'scenarios = (a) encoder: every template family (mono, stereo, 5.1, uncoupled, every rate band, VBR and managed, 255 channels) torn down after set-up / analysis_init / headerout / some audio, rejected set-ups, and clear orders generated by TLC from Own_MC; (b) packet decoder: header prefixes of length 0..3 with a corruption in one header, synthetic set-up headers with one field across its boundary in every part of the syntax (Setup.tla), optional init and decode, TLC-generated clear orders, repeated clears; (c) comment sets of up to 3000 entries built, written, read back and cleared; (d) vorbisfile: damaged streams opened seekable / streaming / via ov_test, I/O faults at successive callback positions of an open, failed seeks, double clear; the ASan allocator reports the bytes still live after the last clear, the close callback is counted; non-trivial = the scenario ended with every object cleared; distinct by script hash',
                     nontrivial, ['live bytes = __sanitizer_get_current_allocated_bytes() delta over the scenario (child process)', 'objects are cleared before the object they were initialised from (block, dsp, info); any number of repeats',
                                  'double frees are ASan reports (NoCrash)'],
                     CHECKER, extra_cov=dict(design_model=mc, clear_orders_from_tla=len(orders), failing_calls_observed=nfail, encoder_scenarios=len(enc), decoder_scenarios=len(dec), vorbisfile_scenarios=len(vfs)),
